@@ -152,6 +152,7 @@ fn mem_cfg(rc: &RunCfg) -> Cfg
 /// invocation (a ruler invocation is an action of its own).
 pub fn run_build(fs: &Fs, rc: &RunCfg, goal: &Option<String>) -> RunResult
 {
+    let _w = crate::watch::item(|| (format!("build({}) on a state reached by the harness (no replayable history recorded at this call site)", goal.clone().unwrap_or_default()), serde_json::json!({"engine": "unreplayable"})));
     let mut fs = fs.clone();
     fs.tick();
     let sys = MemSystem::new(fs, mem_cfg(rc));
@@ -183,6 +184,7 @@ fn observe_point(rc: &RunCfg)
 
 pub fn run_clean(fs: &Fs, rc: &RunCfg, goal: &Option<String>) -> RunResult
 {
+    let _w = crate::watch::item(|| (format!("clean({}) on a state reached by the harness (no replayable history recorded at this call site)", goal.clone().unwrap_or_default()), serde_json::json!({"engine": "unreplayable"})));
     let mut fs = fs.clone();
     fs.tick();
     let sys = MemSystem::new(fs, mem_cfg(rc));
